@@ -455,8 +455,52 @@ def gen_sec():
         imports_for(src, text, ("os", "encoding/json", "math/rand")) + "\n" + text
 
 
+F09_TAIL = '''
+// Runner runs cases for one goroutine.
+type Runner struct{ W Sink }
+
+// NewRunner makes the runner of one goroutine.
+func NewRunner(w Sink) *Runner { return &Runner{W: w} }
+
+// Load reads a case file (the format cmd/ietypes replays).
+func Load(path string) []Case { return load(path) }
+
+// Finish: nothing is held back in this family.
+func (r *Runner) Finish() {}
+
+// Run executes one case (the loop body of cmd/ietypes replay): a fresh element of the type, every prior x value.
+func (r *Runner) Run(c *Case) {
+	b := bind(c.Type, c.Field)
+	for gi := range c.Groups {
+		g := &c.Groups[gi]
+		for pi := range g.Priors {
+			for _, raw := range g.Values {
+				v, vs := value(c.Kind, raw)
+				r.W.Emit(b.run(c, &g.Priors[pi], v, vs))
+			}
+		}
+	}
+}
+'''
+
+
+def gen_ie():
+    """cmd/ietypes: the constructor registry `Types` is generated at check time (reg_gen.go, build tag c19ie)"""
+    src = open(os.path.join(CMD, "ietypes", "main.go")).read()
+    body = cut(src, "type Elem struct", "func replay(in, out string)", "f09")
+    vars_ = re.findall(r"(?m)^var (\w+)", body)
+    if vars_ != ["none"]: raise SyncError("f09: package-level variables of cmd/ietypes changed: %s" % vars_)
+    for need in ("func bind(typ, field string) *binding {", "func (b *binding) run(c *Case, p *Elem, v int, vs []int) Ev {", "func value(kind string, raw json.RawMessage) (int, []int) {", "func load(path string) []Case {"):
+        if need not in body: raise SyncError("f09: %r is gone from cmd/ietypes: adapt tools/conc_sync.py" % need)
+    text = SINK + "\n" + body + F09_TAIL
+    return HEAD % dict(drv="ietypes", pkg="f09", what="binding and the per-case run of cmd/ietypes (C09: Get/Set accessor pairs of the information elements)", trace="Trace_C09") + \
+        imports_for(src, text, ("os", "encoding/json")) + "\n" + text
+
+
 def generate():
     out = {}
+    if os.path.exists(os.path.join(CMD, "ietypes", "main.go")):
+        out["f09"] = gen_ie()
     out["f17"] = gen_state_family("f17", "conv17", "Trace_C17", "the converters of cmd/conv17 (C17: timers, session AMBR, time zone / DST / universal time, network names)",
                                   "type Ev struct")
     out["f12"] = gen_state_family("f12", "identity", "Trace_C12", "the converters of cmd/identity (C12: identities between wire and text)", "type Ev struct")
